@@ -313,11 +313,19 @@ func PropC01(c *vs.Case, f Factory, kind string) error {
 			if len(owned) > 0 {
 				o := owned[c.Int(len(owned))]
 				d := env.W.Sim.DefByKind(o["apiVersion"].(string), o["kind"].(string))
+				driftInItem := c.Bool()
 				env.W.Sim.ExtUpdate(d.Resource, metaStr(o, "namespace"), metaStr(o, "name"), func(obj map[string]any) {
 					for _, k := range []string{"spec", "data"} {
 						if m, ok := obj[k].(map[string]any); ok {
 							m["v"] = "drifted"
 							m["foreign"] = "kept"
+							// a hook-specified field inside a keyed list item drifts as well (the item stays)
+							if ports, ok := m["ports"].([]any); ok && len(ports) > 0 && driftInItem {
+								if it, ok := ports[len(ports)-1].(map[string]any); ok {
+									it["port"] = int64(9999)
+									c.Class("history:drift-inside-list-item")
+								}
+							}
 						}
 					}
 				})
